@@ -106,7 +106,9 @@ func gz(b []byte) []byte {
 	return buf.Bytes()
 }
 
-func childOf(ppid int) int {
+// childOf finds the traced nsq_to_file: the child of strace whose command line starts with the binary
+// (strace forks short-lived children of its own at start-up to probe ptrace features).
+func childOf(ppid int, bin string) int {
 	ents, _ := os.ReadDir("/proc")
 	for _, e := range ents {
 		pid, err := strconv.Atoi(e.Name())
@@ -125,7 +127,10 @@ func childOf(ppid int) int {
 		f := strings.Fields(s[i+1:])
 		if len(f) > 1 {
 			if pp, _ := strconv.Atoi(f[1]); pp == ppid {
-				return pid
+				cl, _ := os.ReadFile("/proc/" + e.Name() + "/cmdline")
+				if strings.HasPrefix(string(cl), bin+"\x00") {
+					return pid
+				}
 			}
 		}
 	}
@@ -290,7 +295,7 @@ func runScenario(base string, sc scenario, bin string) (res scenResult) {
 			exited = true
 			dl = time.Now()
 		default:
-			if tool = childOf(cmd.Process.Pid); tool == 0 {
+			if tool = childOf(cmd.Process.Pid, bin); tool == 0 {
 				time.Sleep(2 * time.Millisecond)
 			}
 		}
@@ -369,7 +374,7 @@ func runScenario(base string, sc scenario, bin string) (res scenResult) {
 	case "drainterm":
 		for dl := time.Now().Add(40 * time.Second); time.Now().Before(dl) && !exited; {
 			cc, _ := channelCounts(n, topicName, channel)
-			if cc.Depth == 0 && cc.InFlight == 0 && cc.Deferred == 0 {
+			if cc.Messages >= uint64(sc.NMsgs) && cc.Depth == 0 && cc.InFlight == 0 && cc.Deferred == 0 {
 				break
 			}
 			waitExit(20 * time.Millisecond)
@@ -399,7 +404,8 @@ func runScenario(base string, sc scenario, bin string) (res scenResult) {
 	var cc chanCounts
 	for dl := time.Now().Add(60 * time.Second); ; {
 		cc, _ = channelCounts(n, topicName, channel)
-		if cc.InFlight == 0 && cc.Deferred == 0 {
+		// Messages: everything published has been copied from the topic into the channel
+		if cc.Messages >= uint64(sc.NMsgs) && cc.InFlight == 0 && cc.Deferred == 0 {
 			break
 		}
 		if time.Now().After(dl) {
